@@ -25,7 +25,11 @@ for f in sorted(glob.glob(os.path.join(HERE, "seeded", "MATRIX_*.json"))):
         except Exception:
             m = {}
         cut = lambda x, n: (str(x).replace("|", "/").replace("\n", " ")[:n] + ("…" if len(str(x)) > n else ""))
-        out.append(f"| {k} | {cut(m.get('summary', ''), 160)} | {cut(m.get('needs', ''), 140)} | {'yes' if d[k]['detected'] else 'NO (exit %s)' % d[k]['exit']} | {cut(d[k].get('where', ''), 150)} |")
+        others = ", ".join(f"{c}: {'yes' if v['detected'] else 'no'}" for c, v in d[k].get("other_checks", {}).items())
+        det = 'yes' if d[k]['detected'] else 'NO (exit %s)' % d[k]['exit']
+        if others:
+            det += f"; by other checks - {others}"
+        out.append(f"| {k} | {cut(m.get('summary', ''), 160)} | {cut(m.get('needs', ''), 140)} | {det} | {cut(d[k].get('where', ''), 150)} |")
     out.append("")
 open(p, "w").write(s.rstrip() + "\n\n" + "\n".join(out) + "\n")
 print("tables written")
